@@ -35,6 +35,10 @@ var ScopePkgs = []string{
 	"./stdlib", "./stdlib/contracts", "./stdlib/rlp", "./values",
 }
 
+// ExtraPkgs are loaded and analysable by the rules that name them (C39), but are not part of the shipped scope:
+// module-wide rules (panic classification, error baseline, map ranges, globals) do not look at them.
+var ExtraPkgs = []string{"./formatter", "./formatter/rewrite", "./formatter/trivia", "./formatter/verify"}
+
 // World is the loaded, type-checked program plus its SSA form.
 type World struct {
 	Root   string
@@ -75,12 +79,12 @@ func Load(root string, tags string) (*World, error) {
 	if tags != "" {
 		cfg.BuildFlags = []string{"-tags=" + tags}
 	}
-	pkgs, err := packages.Load(cfg, ScopePkgs...)
+	pkgs, err := packages.Load(cfg, append(append([]string{}, ScopePkgs...), ExtraPkgs...)...)
 	if err != nil {
 		return nil, err
 	}
-	if len(pkgs) < len(ScopePkgs) {
-		return nil, fmt.Errorf("loaded %d packages, expected at least %d", len(pkgs), len(ScopePkgs))
+	if len(pkgs) < len(ScopePkgs)+len(ExtraPkgs) {
+		return nil, fmt.Errorf("loaded %d packages, expected at least %d", len(pkgs), len(ScopePkgs)+len(ExtraPkgs))
 	}
 	w := &World{Root: root, Roots: pkgs, ByPath: map[string]*packages.Package{}}
 	packages.Visit(pkgs, nil, func(p *packages.Package) {
@@ -245,6 +249,11 @@ func (w *World) ModFuncs() []*types.Func {
 func (w *World) InScope(path string) bool {
 	if !InMod(path) {
 		return false
+	}
+	for _, x := range ExtraPkgs {
+		if path == Mod+strings.TrimPrefix(x, ".") {
+			return false
+		}
 	}
 	for _, r := range w.Roots {
 		if r.PkgPath == path {
